@@ -139,7 +139,7 @@ def model_state(s0, group, names, ops_prefix, cleanup_temp=None):
     return out
 
 
-def examine(sc, rc, label, detail):
+def examine(sc, rc, label, detail, published=True):
     """the property on the real storage after an interrupted / failed run; returns a problem string or None"""
     H = sc.H
     dec = H.w.decode()
@@ -153,8 +153,9 @@ def examine(sc, rc, label, detail):
         if len(parts) >= 2 and parts[1].startswith("."):
             continue        # abandoned temporaries may be removed
         if rel not in now_d:
-            # a group under deletion may be partially removed (the property excludes groups being deleted)
-            if sc.kind == "rotate" and g != sc.name[:10]:
+            # a group under deletion may be partially removed (the property excludes groups being deleted) - but retention
+            # only ever runs after publication: a run that did not publish must not have deleted anything
+            if published and sc.kind == "rotate" and g != sc.name[:10]:
                 continue
             return "%s: %s of a backup that was complete before the run has disappeared" % (label, rel)
         if now_d[rel] != h:
@@ -232,8 +233,8 @@ def run_scenario(ctx, rng, kind, budget):
                 ctx.count("inject.%s.%s" % (variant, o["op"]))
                 label = "%s at call %d (%s %s) of scenario %s" % (variant, j, o["op"], o.get("rel"), kind)
                 ctx.nontrivial.add((kind, j, variant))
-                problem = examine(sc, rc, label, None)
                 la, _ = runs.listing(H.w.decode())
+                problem = examine(sc, rc, label, None, published=any(sc.name in fin for _, fin, _, _ in la))
                 own_temp = "." + sc.name
                 temp_left = any(own_temp in t for _, _, t, _ in la)
                 if not problem and variant != "KILL":
